@@ -277,8 +277,8 @@ def finish(prop, tier, seed, cfg, w, results, extra_results, t0, update_lock):
         for u in undecided:
             print("UNDECIDED", u)
         return 2
-    if len(names) == 0:
-        print("ERROR no obligations generated")
+    if len(names) == 0 and not any(b.get("evaluations", 0) > 0 for b in bounded):
+        print("ERROR no obligations generated and no bounded evaluations")
         return 3
     return 0
 
